@@ -16,7 +16,7 @@ var props = []propCfg{
 	},
 	{
 		ID: "C11", World: "manager", Pkg: "worlds/manager", Test: "TestManager", Level: "exploration",
-		Variants: []variant{{Name: "plain", Quick: 50000, Thorough: 1500000, Workers: 16, QuickS: 900, ThoroughS: 3 * 3600}},
+		Variants: []variant{{Name: "plain", Quick: 50000, Thorough: 400000, Workers: 16, QuickS: 900, ThoroughS: 3 * 3600}},
 		Rule: "one run = one drawn history (1..60 operations quick, 1..300 thorough) over Add / AddKey / AddNewKeyFromParameters / SetPrimary / Enable / Disable / Delete / Handle / NewManagerFromHandle(earlier handle) / re-inspection, " +
 			"started from an empty manager or from a handle parsed from a stored keyset with DISABLED and DESTROYED keys; key-ID draws are served from a script (live ID, deleted/burned ID, 0, 2^32-1) through the RNG seam so the re-draw loop runs; " +
 			"after every operation the keyset is compared with a reference model. Non-trivial = at least two distinct (operation kind, outcome) pairs occurred; distinct = signature (start kind, set of (op kind, ok/err) pairs, scripted live-ID collisions class, max live keys class, branches class).",
